@@ -725,8 +725,10 @@ def oracle_c08(an):
                     # ERROR[REJECTED...] answering a request we refused is legal; anything else is not
                     if t == 'ERROR':
                         continue
+                    followed = any(e2['k'] == 'enq' and e2['ep'] == ep and e2['seq'] > ev['seq'] and e2['f']['sid'] == sid
+                                   and e2['f']['type'] in REQ_TYPES for e2 in an.by_kind['enq'])
                     V('frame_before_request', '%s queued on stream %d before its request frame' % (t, sid), ev['seq'],
-                      lease_queued=lease, **facts)
+                      request_waiting_for_lease=bool(lease and followed), **facts)
                     continue
                 facts['role'] = s.role
                 facts['kind'] = s.kind
@@ -1018,6 +1020,11 @@ def oracle_c09(an):
             facts = dict(kind=kind, canceller=role, src=src, lease=bool(an.plan.get(ep, {}).get('honor_lease')))
             cancels = [e for e in an.by_kind['enq'] if e['ep'] == ep and e['f']['sid'] == sid and e['f']['type'] == 'CANCEL'
                        and lo <= e['seq'] < hi]
+            reqf = [e for e in an.by_kind['enq'] if e['ep'] == ep and e['f']['sid'] == sid and e['f']['type'] in REQ_TYPES
+                    and lo <= e['seq'] < hi]
+            # with honor_lease the request frame may still sit in the lease queue when CANCEL is queued
+            facts['cancel_overtook_lease_queued_request'] = bool(facts['lease'] and cancels and reqf
+                                                                 and cancels[0]['seq'] < reqf[0]['seq'])
             # terminal frame of the stream pulled by the canceller between the action and the first
             # opportunity to queue the CANCEL (request-response: next loop iteration) -> 0 or 1
             act_it = next(e['it'] for e in an.acts[iid] if e['seq'] == cseq)
